@@ -10,6 +10,9 @@ Decides, per control-flow encoding (abstract sweep: operand bytes symbolic, sele
   3 SEQ-PAIR        CALL pushes 2 <-> RET pops 2 and merges the *current* page; CALLF <-> RETF 3 bytes; Rust arms use the same widths
   4 SIBLING         Rust JpAbs/Call/Ret/JpRel target formulas equal the Python ones (bit-vector comparison of the folded expressions)
   5 WHO-MAY         PC is set to address + length before IL evaluation on both emulator paths
+  6 PAGE-EDGE       clauses 1 and 4 again for an instruction straddling a 64 KiB page boundary
+  7 IRQ-FRAME       IR pushes PC3,F1,IMR1 as they were before the instruction (no pushed value is read after being overwritten); RETI mirrors
+  8 MEMO            get_instruction_info is not memoised under a key without the address
 """
 from __future__ import annotations
 
